@@ -32,7 +32,7 @@ func (w *World) enterCB(kind string, cs *connState) (task string) {
 		}
 		cs.inCB = true
 	}
-	w.logf("cb %s conn=%d task=%s", kind, connIdx(cs), task)
+	w.logf("cb %s conn=%d fd=%d task=%s", kind, connIdx(cs), connFd(cs), task)
 	return
 }
 
@@ -57,7 +57,7 @@ func (h *handler) OnBoot(eng gnet.Engine) gnet.Action {
 	w.bootCount++
 	w.logf("OnBoot")
 	if w.p.Stop.Source == "boot" {
-		w.stopRequested = true
+		w.stopRequested, w.otherShutdown = true, true
 		return gnet.Shutdown
 	}
 	return gnet.None
@@ -80,6 +80,7 @@ func (h *handler) OnTick() (time.Duration, gnet.Action) {
 	}
 	d := time.Duration(max(1, w.p.Cfg.TickMs)) * time.Millisecond
 	if w.p.Stop.Source == "tick" && w.tickCount >= max(1, w.p.Stop.AtStep) {
+		w.otherShutdown = true
 		if !w.stopRequested {
 			w.stopRequested = true
 			w.markLocalAll()
@@ -153,6 +154,7 @@ func (w *World) noteAction(cs *connState, a gnet.Action) {
 	case gnet.Close:
 		cs.localReq = true
 	case gnet.Shutdown:
+		w.otherShutdown = true
 		if !w.stopRequested {
 			w.stopRequested = true
 			w.logf("shutdown action from conn %d", cs.idx)
@@ -196,9 +198,18 @@ func (h *handler) OnClose(c gnet.Conn, err error) (action gnet.Action) {
 		}
 	}
 	action = gnet.Action(cs.cp.CloseAct)
-	if action == gnet.Shutdown && !w.stopRequested {
-		w.stopRequested = true
-		w.markLocalAll()
+	if action == gnet.Shutdown {
+		if w.inCall[task] > 0 {
+			// OnClose runs nested inside the handler's own call (EventLoop.Close,
+			// a failing Write, Flush): the action travels back as that call's error
+			w.nestedShutdown++
+		} else {
+			w.otherShutdown = true
+		}
+		if !w.stopRequested {
+			w.stopRequested = true
+			w.markLocalAll()
+		}
 	}
 	return
 }
@@ -640,4 +651,11 @@ func fmtErr(err error) string {
 		return "nil"
 	}
 	return fmt.Sprint(err)
+}
+
+func connFd(cs *connState) int {
+	if cs == nil {
+		return -1
+	}
+	return cs.fd
 }
